@@ -272,6 +272,10 @@ namespace {
 
           if (post->has_flags(POST_COST_IN_FULL))
             amtbuf << " " << cost_op << " " << post->given_cost->abs();
+          else if (post->amount.is_realzero())
+            // no per-unit price can be recovered from a zero amount
+            amtbuf << " " << (post->has_flags(POST_COST_VIRTUAL) ? "(@@)" : "@@")
+                   << " " << post->given_cost->abs();
           else
             amtbuf << " " << cost_op << " "
                    << (*post->given_cost / post->amount).abs();
